@@ -154,7 +154,13 @@ func (o *OCIDir) initIndex(r ref.Ref, locked bool) error {
 	if err != nil && !errors.Is(err, fs.ErrExist) {
 		return fmt.Errorf("failed creating %s: %w", r.Path, err)
 	}
-	// create/replace oci-layout file
+	// create oci-layout file
+	return writeLayout(r.Path)
+}
+
+// writeLayout creates the oci-layout file from a tmp file that is renamed into place,
+// an interrupted write never leaves a truncated file that would make the layout unreadable.
+func writeLayout(dir string) error {
 	layout := v1.ImageLayout{
 		Version: "1.0.0",
 	}
@@ -162,15 +168,25 @@ func (o *OCIDir) initIndex(r ref.Ref, locked bool) error {
 	if err != nil {
 		return fmt.Errorf("cannot marshal layout: %w", err)
 	}
-	//#nosec G304 users should validate references they attempt to open
-	lfh, err := os.Create(layoutFile)
+	tmpFile, err := os.CreateTemp(dir, imageLayoutFile+".*.tmp")
 	if err != nil {
-		return fmt.Errorf("cannot create %s: %w", imageLayoutFile, err)
+		return fmt.Errorf("cannot create %s tmpfile: %w", imageLayoutFile, err)
 	}
-	defer lfh.Close()
-	_, err = lfh.Write(lb)
+	tmpName := tmpFile.Name()
+	_, err = tmpFile.Write(lb)
+	errC := tmpFile.Close()
 	if err != nil {
+		_ = os.Remove(tmpName)
 		return fmt.Errorf("cannot write %s: %w", imageLayoutFile, err)
+	}
+	if errC != nil {
+		_ = os.Remove(tmpName)
+		return fmt.Errorf("cannot close %s: %w", imageLayoutFile, errC)
+	}
+	err = os.Rename(tmpName, path.Join(dir, imageLayoutFile))
+	if err != nil {
+		_ = os.Remove(tmpName)
+		return fmt.Errorf("cannot rename tmpfile to %s: %w", imageLayoutFile, err)
 	}
 	return nil
 }
@@ -241,22 +257,12 @@ func (o *OCIDir) writeIndex(r ref.Ref, i v1.Index, locked bool) error {
 	if err != nil && !errors.Is(err, fs.ErrExist) {
 		return fmt.Errorf("failed creating %s: %w", r.Path, err)
 	}
-	// create/replace oci-layout file
-	layout := v1.ImageLayout{
-		Version: "1.0.0",
-	}
-	lb, err := json.Marshal(layout)
-	if err != nil {
-		return fmt.Errorf("cannot marshal layout: %w", err)
-	}
-	lfh, err := os.Create(path.Join(r.Path, imageLayoutFile))
-	if err != nil {
-		return fmt.Errorf("cannot create %s: %w", imageLayoutFile, err)
-	}
-	defer lfh.Close()
-	_, err = lfh.Write(lb)
-	if err != nil {
-		return fmt.Errorf("cannot write %s: %w", imageLayoutFile, err)
+	// create/replace oci-layout file if it is missing or invalid
+	if errValid := o.valid(r.Path, true); errValid != nil {
+		err = writeLayout(r.Path)
+		if err != nil {
+			return err
+		}
 	}
 	// create/replace index.json file
 	tmpFile, err := os.CreateTemp(r.Path, "index.json.*.tmp")
